@@ -158,7 +158,7 @@ def check(pid: str, tier: str, seed: int):
     configs = {}
     with C.Scratch() as scratch:
         impl = C.import_impl()
-        from maltoolbox.attackgraph import AttackGraph
+        from maltoolbox.attackgraph import AttackGraph, AttackGraphNode as impl_node
         gen = LG.LangGen(rng)
         n = 110 if tier == 'quick' else 1500
         for i in range(n):
@@ -232,6 +232,15 @@ def check(pid: str, tier: str, seed: int):
                             if nd.asset is None or not any(nd.asset is a for a in m.assets) or str(nd.asset.name) + ':' + nd.name != nd.full_name:
                                 pv.append('a loaded node is not bound to the model asset of the same name')
                                 break
+                    # the loaded graph is a graph one goes on working with: a step added to it gets an id of its own
+                    # (after every observation above has been taken)
+                    try:
+                        extra = impl_node(type='or', name='zzadded', ttc=None)
+                        g2.add_node(extra)
+                        if sum(1 for nd in g2.nodes if nd.id == extra.id) != 1:
+                            pv.append(f'a step added to the loaded graph received an id that another step has ({key})')
+                    except Exception as e:
+                        pv.append(f'add_node on the loaded graph raised {type(e).__name__} ({key})')
                 cases.append(f'({c_content(nodes, atts, names)}, {C.cjv(doc)})')
                 os.remove(fn)
             metas.append({'lang_assets': [a['name'] for a in L['assets']], 'nodes': nodes, 'atts': atts, 'prop_viol': pv})
